@@ -24,6 +24,12 @@ var _ = verifReg("C08cose", VerifC08cose)
 // payload / signature buffers of an honest message m (nil = none).
 func verifAttackerMessage(pfx string, m *cose.Sign1Message) *cose.Sign1Message {
 	a := cose.NewSign1Message()
+	// models that differ from the honest message in as little as possible replay natively
+	ndPrefer(ndInt(pfx+".payload") == 1)
+	ndPrefer(ndBool(pfx + ".samesig"))
+	ndPrefer(ndInt(pfx+".alg") == 1)
+	ndPrefer(!ndBool(pfx + ".unprotected.alg"))
+	ndPrefer(ndBool(pfx + ".canonical.protected.bytes"))
 	switch ndConcrete(verifChoice(pfx+".alg", 3)) {
 	case 0: // no algorithm in the protected bucket
 	case 1:
@@ -179,13 +185,16 @@ func VerifC02() {
 	// (1) the honest token under a different key
 	ndAssert("c02-other-key-never-verifies", e.Verify(w.pubAlg(1, alg)) != nil)
 	if !ndSymbolic() {
-		// natively: single-byte substitutions of the real token (replayed class representatives)
-		pos := ndInt("native.pos")
-		if pos >= 0 && pos < len(tok) {
-			t2 := append([]byte{}, tok...)
-			t2[pos] ^= ndUint8("native.flip") | 1
-			ev, derr := DecodeEvidenceFromCOSE(t2)
-			ndAssert("c02-modified-token-never-verifies", derr != nil || ev.Verify(w.pubAlg(0, alg)) != nil || c02sameMessage(ev.message, &honest))
+		// natively: rebuild the model's attacker envelope from the REAL token and run it
+		// through the real go-cose and the real signature check
+		abuf, differs, ok := c02nativeAttack(tok)
+		key := verifChoice("vkey", 2)
+		if ok {
+			ev, derr := DecodeEvidenceFromCOSE(abuf)
+			if derr == nil {
+				verr := ev.Verify(w.pubAlg(key, alg))
+				ndAssert("c02-modified-token-never-verifies", !(differs || key != 0) || verr != nil)
+			}
 		}
 		ndCover("c02-honest-verifies", e.Verify(w.pubAlg(0, alg)) == nil)
 		return
@@ -411,4 +420,89 @@ func c08attachThenMutate(c IClaims) *Evidence {
 		verifSetLabel(v.c, verifLabelOf(c))
 	}
 	return e
+}
+
+// c02nativeAttack rebuilds, from the real honest token, the envelope the model describes
+// (same nd variables as verifAttackerMessage): algorithm dropped / kept / replaced, payload
+// nil / kept / replaced, signature kept / replaced, protected-header bytes canonical or a
+// different serialisation of the same map, algorithm also in the unprotected bucket.
+func c02nativeAttack(tok []byte) (out []byte, differs bool, ok bool) {
+	m := cose.NewSign1Message()
+	if err := m.UnmarshalCBOR(tok); err != nil {
+		return nil, false, false
+	}
+	honestAlg, _ := m.Headers.Protected.Algorithm()
+	algBytes := verifCBORInt(int64(honestAlg))
+	switch verifChoice("att.alg", 3) {
+	case 0:
+		delete(m.Headers.Protected, cose.HeaderLabelAlgorithm)
+		m.Headers.RawProtected = []byte{0x40}
+		differs = true
+	case 1:
+	case 2:
+		v := int64(ndInt("att.algvalue"))
+		if v != int64(honestAlg) {
+			differs = true
+		}
+		m.Headers.Protected.SetAlgorithm(cose.Algorithm(v))
+		algBytes = verifCBORInt(v)
+		m.Headers.RawProtected = verifCBORBstr(append([]byte{0xa1, 0x01}, algBytes...))
+	}
+	switch verifChoice("att.payload", 3) {
+	case 0:
+		m.Payload = nil
+		differs = true
+	case 1:
+	case 2:
+		p := ndBytes("att.payload.bytes")
+		if string(p) != string(m.Payload) {
+			differs = true
+		}
+		m.Payload = p
+	}
+	if ndBool("att.unprotected.alg") {
+		m.Headers.Unprotected[cose.HeaderLabelAlgorithm] = cose.AlgorithmES256
+	}
+	if !ndBool("att.canonical.protected.bytes") {
+		if _, err := m.Headers.Protected.Algorithm(); err == nil {
+			// the same one-entry map with a non-minimal key encoding (0x18 0x01 instead of 0x01)
+			m.Headers.RawProtected = verifCBORBstr(append([]byte{0xa1, 0x18, 0x01}, algBytes...))
+			differs = true
+		}
+	}
+	if !ndBool("att.samesig") {
+		sg := ndBytes("att.sig.bytes")
+		if string(sg) != string(m.Signature) {
+			differs = true
+		}
+		if len(sg) == 0 {
+			return nil, false, false
+		}
+		m.Signature = sg
+	}
+	b, err := m.MarshalCBOR()
+	if err != nil {
+		return nil, false, false
+	}
+	return b, differs, true
+}
+
+func verifCBORInt(v int64) []byte {
+	major := byte(0)
+	u := uint64(v)
+	if v < 0 {
+		major = 0x20
+		u = uint64(-1 - v)
+	}
+	switch {
+	case u < 24:
+		return []byte{major | byte(u)}
+	case u < 1<<8:
+		return []byte{major | 24, byte(u)}
+	case u < 1<<16:
+		return []byte{major | 25, byte(u >> 8), byte(u)}
+	case u < 1<<32:
+		return []byte{major | 26, byte(u >> 24), byte(u >> 16), byte(u >> 8), byte(u)}
+	}
+	return []byte{major | 27, byte(u >> 56), byte(u >> 48), byte(u >> 40), byte(u >> 32), byte(u >> 24), byte(u >> 16), byte(u >> 8), byte(u)}
 }
